@@ -357,6 +357,47 @@ func c20CheckStorage(w *World, res *CaseResult) error {
 			}
 			obs["double-references-tried"]++
 		}
+		// ---- (3b) two references to one child from the SAME parent slab: patch the reference to the second child
+		// so that it points at the first one
+		if rs := g.refs[id]; len(rs) >= 2 && rs[0] != rs[1] {
+			a, b := rs[0], rs[1]
+			pdata := regs[id]
+			var patched []byte
+			if old := rawID(b); bytes.Count(pdata, old) == 1 {
+				patched = bytes.Replace(pdata, old, rawID(a), 1)
+			} else if g.kinds[b] == "index->child" {
+				ia, ib := a.Index(), b.Index()
+				if bytes.Count(pdata, ib[:]) == 1 {
+					patched = bytes.Replace(pdata, ib[:], ia[:], 1)
+				}
+			}
+			if patched != nil {
+				if _, err := atree.DecodeSlab(id, patched, cborDecMode, decodeStorable, decodeTypeInfo); err == nil {
+					r3 := copyRegs(regs)
+					r3[id] = patched
+					// (i) the displaced child stays behind as an extra root: root count unchecked
+					ps, err := loadAll(r3)
+					if err == nil {
+						if err := expectReject(ps, -1, fmt.Sprintf("slab %s patched to reference child %s twice (displaced child %s left behind, root count unchecked)", id, a, b)); err != nil {
+							return err
+						}
+					}
+					// (ii) the displaced child and everything only it reaches is removed: expected root count unchanged
+					delete(r3, b)
+					sub, _ := g.reachableFrom(b, regs)
+					for _, x := range sub {
+						delete(r3, x)
+					}
+					ps, err = loadAll(r3)
+					if err == nil {
+						if err := expectReject(ps, len(rootIDs), fmt.Sprintf("slab %s patched to reference child %s twice (displaced child %s removed)", id, a, b)); err != nil {
+							return err
+						}
+					}
+					obs["same-parent-double-references-tried"]++
+				}
+			}
+		}
 		// ---- (4) referenced child moved to a different owner address, reference patched
 		if referenced && !isRoot[id] && len(g.parents[id]) == 1 {
 			pid := g.parents[id][0]
@@ -748,7 +789,7 @@ func runC17(c *CaseCtx) *CaseResult {
 		}
 	case 3: // byte conversion
 		lengths := []int{0, 1, 2, 3}
-		for i := 0; i < 24; i++ {
+		for i := 0; i < 10; i++ {
 			lengths = append(lengths, r.Intn(maxLen*2))
 		}
 		// lengths around the single-slab fast-path boundary for each estimated size
@@ -776,7 +817,11 @@ func runC17(c *CaseCtx) *CaseResult {
 			if L < 0 {
 				continue
 			}
-			for _, est := range []uint32{0, 1, 3, 4, 100} {
+			ests := []uint32{0, 1, 3, 4, 100}
+			if pl.class != 0 {
+				ests = []uint32{0, 1, 4}
+			}
+			for _, est := range ests {
 				data := make([]byte, L)
 				small := r.Intn(3) == 0
 				for i := range data {
@@ -1044,10 +1089,10 @@ func init() {
 	register(&Prop{
 		ID: "C20", Level: "fault_enumeration", Run: runC20, Cases: cases(128, 800), MinNonTrivial: 8,
 		Rule: "each case = one storage produced by a valid seeded history (nested inlined/standalone children, wrappers around references, large values, external collision groups, multi-level trees, two roots). Healthy side: CheckStorageHealth must accept the warm storage mid-history with a pending write set, after commit, and a fresh storage with everything preloaded, and return exactly the live roots; GetAllChildReferences(root) is compared as a multiset with an independent walk over decoded registers. " +
-			"Corrupted side, for EVERY slab (sampled to 70 when larger, keeping every reference kind): (1) delete a referenced slab - at ledger level + fresh storage, through the storage API uncommitted, and committed; (2) add an unreferenced copy / a fresh large-value slab with the expected root count unchanged - ledger level and API; (3) duplicate a referencing register so its children have two parents (root count unchecked); (4) move a referenced child to a foreign owner address and patch the 16-byte reference. Every corruption must be rejected; broken-reference lists must equal the deleted ids that are reachable. " +
+			"Corrupted side, for EVERY slab (sampled to 70 when larger, keeping every reference kind): (1) delete a referenced slab - at ledger level + fresh storage, through the storage API uncommitted, and committed; (2) add an unreferenced copy / a fresh large-value slab with the expected root count unchanged - ledger level and API; (3) duplicate a referencing register so its children have two parents (root count unchecked), and patch a parent so that two of its own references point at the same child (displaced child left behind / removed); (4) move a referenced child to a foreign owner address and patch the 16-byte reference. Every corruption must be rejected; broken-reference lists must equal the deleted ids that are reachable. " +
 			"non-trivial = >3 deletions, a double reference and a foreign-owner corruption were applied and an index->child reference was among the kinds; distinct by hash(config, operation list)",
 		Assumptions: []string{"corruptions are single-slab; index->child references are not byte-patchable for kind (4) (the address is stored once per index slab) and are covered by kinds (1)-(3)"},
-		Mandatory:   []string{"healthy-storages-accepted", "corruptions-rejected", "deletions-tried", "additions-tried", "double-references-tried", "foreign-owner-tried", "childrefs-queries", "childrefs-broken-found", "warm-pending-health-checks", "kind:index->child", "kind:element", "kind:group->collision-slab", "kind:wrapper->element"},
+		Mandatory:   []string{"healthy-storages-accepted", "corruptions-rejected", "deletions-tried", "additions-tried", "double-references-tried", "same-parent-double-references-tried", "foreign-owner-tried", "childrefs-queries", "childrefs-broken-found", "warm-pending-health-checks", "kind:index->child", "kind:element", "kind:group->collision-slab", "kind:wrapper->element"},
 	})
 	register(&Prop{
 		ID: "C17", Level: "exploration", Run: runC17, Cases: cases(64, 320), MinNonTrivial: 8,
